@@ -11,13 +11,14 @@
 // The translation is fail-closed: an expression, statement or shape outside the subset makes the target
 // fail (a line `(* TRANSLATION-FAILED name: reason *)` and no definition), which breaks the proof
 // obligation that mentions it.  Semantics:
-//   uint64  + - *   -> wrap64 (...)        / -> Z.div   % -> Z.modulo   (operands are in range)
-//   uint32  + - *   -> wrap32 (...)
-//   int64/int + - * -> to_int64 (...)      / -> Z.quot  % -> Z.rem
-//   sdk.Int  Mul Add Sub -> Z arithmetic, Quo -> Z.quot (the 256-bit cap is not part of the fragment)
-//   sdk.Dec  -> Z scaled by 10^18 with the functions of Base/Dec.v
-//   a division or remainder whose divisor is not a non-zero literal contributes to <name>_panics,
-//   a boolean that is true iff an evaluated divisor is zero (short-circuit evaluation respected).
+//
+//	uint64  + - *   -> wrap64 (...)        / -> Z.div   % -> Z.modulo   (operands are in range)
+//	uint32  + - *   -> wrap32 (...)
+//	int64/int + - * -> to_int64 (...)      / -> Z.quot  % -> Z.rem
+//	sdk.Int  Mul Add Sub -> Z arithmetic, Quo -> Z.quot (the 256-bit cap is not part of the fragment)
+//	sdk.Dec  -> Z scaled by 10^18 with the functions of Base/Dec.v
+//	a division or remainder whose divisor is not a non-zero literal contributes to <name>_panics,
+//	a boolean that is true iff an evaluated divisor is zero (short-circuit evaluation respected).
 package main
 
 import (
@@ -56,6 +57,82 @@ type tctx struct {
 	funcs  map[string]*Target // translated whole functions by Go name
 	ftypes map[string][]string
 	used   map[string]bool
+	files  []*ast.File // the package of the target: pure helper functions called from a fragment are translated too
+	aux    *[]string   // definitions of such helpers, printed before the target
+	depth  int
+}
+
+func goType(t string) string {
+	switch t {
+	case "math.Int", "sdk.Int", "sdkmath.Int":
+		return "Int"
+	case "sdk.Dec", "math.LegacyDec", "sdkmath.LegacyDec":
+		return "Dec"
+	case "sdk.Coins":
+		return "Coins"
+	case "sdk.DecCoins":
+		return "DecCoins"
+	}
+	return t
+}
+
+// translate a pure helper function of the same package on the fly (extract-function refactors keep the tie)
+func (c *tctx) helper(name string) bool {
+	if _, ok := c.funcs[name]; ok {
+		return true
+	}
+	if c.depth > 4 {
+		return false
+	}
+	fd := findFunc(c.files, name)
+	if fd == nil || fd.Recv != nil || fd.Type.Results == nil {
+		return false
+	}
+	ok := false
+	func() {
+		defer func() {
+			if r := recover(); r != nil {
+				if _, isF := r.(failure); !isF {
+					panic(r)
+				}
+			}
+		}()
+		t := &Target{Name: "Aux_" + name, Kind: "func"}
+		h := &tctx{fset: c.fset, t: t, env: map[string]string{}, consts: c.consts, funcs: c.funcs, ftypes: c.ftypes,
+			used: map[string]bool{}, files: c.files, aux: c.aux, depth: c.depth + 1}
+		var params, sig []string
+		for _, fl := range fd.Type.Params.List {
+			ty := goType(norm(c.fset, fl.Type))
+			for _, nm := range fl.Names {
+				if !isInt(ty) && ty != "bool" && ty != "Int" && ty != "Dec" {
+					fail("parameter type %s", ty)
+				}
+				h.env[nm.Name] = ty
+				params = append(params, fmt.Sprintf("(v_%s : %s)", nm.Name, coqType(ty)))
+				sig = append(sig, ty)
+			}
+		}
+		var results []string
+		for _, fl := range fd.Type.Results.List {
+			n := len(fl.Names)
+			if n == 0 {
+				n = 1
+			}
+			for j := 0; j < n; j++ {
+				results = append(results, goType(norm(c.fset, fl.Type)))
+			}
+		}
+		if len(results) != 1 || results[0] == "error" {
+			fail("helper result")
+		}
+		value, panics := h.block(fd.Body.List, results)
+		*c.aux = append(*c.aux, fmt.Sprintf("(* helper %s, translated because a fragment calls it *)\nDefinition %s %s : %s :=\n  %s.\nDefinition %s_panics %s : bool :=\n  %s.\n\n",
+			name, t.Name, strings.Join(params, " "), coqType(results[0]), value, t.Name, strings.Join(params, " "), panics))
+		c.funcs[name] = t
+		c.ftypes[name] = append(sig, results[0])
+		ok = true
+	}()
+	return ok
 }
 
 func norm(fset *token.FileSet, n ast.Node) string {
@@ -408,6 +485,9 @@ func (c *tctx) call(x *ast.CallExpr) (string, string, string) {
 	if i := strings.LastIndex(fn, "."); i >= 0 {
 		short = fn[i+1:]
 	}
+	if id, isId := x.Fun.(*ast.Ident); isId {
+		c.helper(id.Name)
+	}
 	if ft, ok := c.funcs[short]; ok && ft.Name != c.t.Name {
 		sig := c.ftypes[short]
 		vs, ts, p := c.args(x, len(sig)-1)
@@ -494,6 +574,10 @@ func (c *tctx) call(x *ast.CallExpr) (string, string, string) {
 				return bin("int64", "Dec", "(dec_mul_int %s %s)")
 			case "MulInt":
 				return bin("Int", "Dec", "(dec_mul_int %s %s)")
+			case "QuoInt":
+				v, t, p := bin("Int", "Dec", "(dec_quo_int %s %s)")
+				vs, _, _ := c.args(x, 1)
+				return v, t, por(p, "("+vs[0]+" =? 0)")
 			case "QuoInt64":
 				v, t, p := bin("int64", "Dec", "(dec_quo_int %s %s)")
 				vs, _, _ := c.args(x, 1)
@@ -956,32 +1040,141 @@ func (c *tctx) fragment(body *ast.BlockStmt) (string, string, string) {
 			p = por(p, "("+prefix+pe+")")
 		}
 		return "(" + prefix + v + ")", ty, p
+	case "merge":
+		var res *found
+		var ifs *ast.IfStmt
+		n := 0
+		single := func(b *ast.BlockStmt) ast.Expr {
+			if b == nil || len(b.List) != 1 {
+				return nil
+			}
+			as, ok := b.List[0].(*ast.AssignStmt)
+			if !ok || len(as.Lhs) != 1 || len(as.Rhs) != 1 || as.Tok != token.ASSIGN || norm(c.fset, as.Lhs[0]) != t.Pick {
+				return nil
+			}
+			return as.Rhs[0]
+		}
+		c.search(body.List, nil, func(s ast.Stmt, dom []ast.Stmt) bool {
+			switch x := s.(type) {
+			case *ast.IfStmt:
+				eb, _ := x.Else.(*ast.BlockStmt)
+				if single(x.Body) != nil && single(eb) != nil {
+					if n == t.Nth {
+						res, ifs = &found{path: dom}, x
+						return true
+					}
+					n++
+				}
+			case *ast.AssignStmt:
+				if len(x.Lhs) == 1 && len(x.Rhs) == 1 && x.Tok == token.ASSIGN && norm(c.fset, x.Lhs[0]) == t.Pick {
+					if _, isCall := x.Rhs[0].(*ast.CallExpr); isCall && n == t.Nth {
+						// only top-level (not inside the if/else handled above): dominated position check by search order
+						res = &found{path: dom, rhs: x.Rhs[0]}
+						return true
+					}
+				}
+			}
+			return false
+		})
+		if res == nil {
+			// the value may be given in a composite literal instead: `Amount: <call>`
+			field := t.Pick
+			if i := strings.LastIndex(field, "."); i >= 0 {
+				field = field[i+1:]
+			}
+			c.search(body.List, nil, func(s ast.Stmt, dom []ast.Stmt) bool {
+				hit := false
+				ast.Inspect(s, func(nd ast.Node) bool {
+					if hit {
+						return false
+					}
+					switch y := nd.(type) {
+					case *ast.BlockStmt:
+						if nd != ast.Node(s) {
+							return false
+						}
+					case *ast.KeyValueExpr:
+						if norm(c.fset, y.Key) == field {
+							if call, isCall := y.Value.(*ast.CallExpr); isCall && len(call.Args) > 0 {
+								res = &found{path: dom, rhs: y.Value}
+								hit = true
+								return false
+							}
+						}
+					}
+					return true
+				})
+				return hit
+			})
+		}
+		if res == nil {
+			fail("no assignment of %s (plain or in both branches of an if) in %s", t.Pick, t.Func)
+		}
+		prefix, p := c.lets(res.path)
+		if ifs == nil {
+			v, ty, pe := c.expr(res.rhs)
+			if pe != "false" {
+				p = por(p, "("+prefix+pe+")")
+			}
+			return "(" + prefix + v + ")", ty, p
+		}
+		cv, ct, cp := c.expr(ifs.Cond)
+		if ct != "bool" {
+			fail("condition of type %s", ct)
+		}
+		av, at, ap := c.expr(single(ifs.Body))
+		bv, bt, bp := c.expr(single(ifs.Else.(*ast.BlockStmt)))
+		ty := unify(at, bt)
+		pp := cp
+		if ap != "false" || bp != "false" {
+			pp = por(cp, "(if "+cv+" then "+ap+" else "+bp+")")
+		}
+		if pp != "false" {
+			p = por(p, "("+prefix+pp+")")
+		}
+		return "(" + prefix + "if " + cv + " then " + av + " else " + bv + ")", ty, p
 	case "effects":
 		// the store writes of the function, in source order: "Set:<key builder>" / "Delete:<key builder>"
 		var effs []string
-		ast.Inspect(body, func(nd ast.Node) bool {
-			call, ok := nd.(*ast.CallExpr)
-			if !ok {
-				return true
-			}
-			sel, ok := call.Fun.(*ast.SelectorExpr)
-			if !ok || (sel.Sel.Name != "Set" && sel.Sel.Name != "Delete") || len(call.Args) == 0 {
-				return true
-			}
-			recv := norm(c.fset, sel.X)
-			if !strings.HasSuffix(strings.ToLower(recv), "store") {
-				return true
-			}
-			key := norm(c.fset, call.Args[0])
-			if kc, ok := call.Args[0].(*ast.CallExpr); ok {
-				key = norm(c.fset, kc.Fun)
-				if i := strings.LastIndex(key, "."); i >= 0 {
-					key = key[i+1:]
+		var collect func(b *ast.BlockStmt, depth int)
+		collect = func(b *ast.BlockStmt, depth int) {
+			ast.Inspect(b, func(nd ast.Node) bool {
+				call, ok := nd.(*ast.CallExpr)
+				if !ok {
+					return true
 				}
-			}
-			effs = append(effs, sel.Sel.Name+":"+key)
-			return true
-		})
+				sel, ok := call.Fun.(*ast.SelectorExpr)
+				if ok && depth < 3 {
+					// a method of the same keeper, declared in this package: its writes are this function's writes
+					if id, isId := sel.X.(*ast.Ident); isId && (id.Name == "k" || id.Name == "m") {
+						for _, f := range c.files {
+							for _, d := range f.Decls {
+								if fd, isF := d.(*ast.FuncDecl); isF && fd.Recv != nil && fd.Body != nil && fd.Name.Name == sel.Sel.Name {
+									collect(fd.Body, depth+1)
+								}
+							}
+						}
+					}
+				}
+				if !ok || (sel.Sel.Name != "Set" && sel.Sel.Name != "Delete") || len(call.Args) == 0 {
+					return true
+				}
+				recv := norm(c.fset, sel.X)
+				if !strings.HasSuffix(strings.ToLower(recv), "store") {
+					return true
+				}
+				key := norm(c.fset, call.Args[0])
+				if kc, ok := call.Args[0].(*ast.CallExpr); ok {
+					key = norm(c.fset, kc.Fun)
+					if i := strings.LastIndex(key, "."); i >= 0 {
+						key = key[i+1:]
+					}
+				}
+				effs = append(effs, sel.Sel.Name+":"+key)
+				return true
+			})
+		}
+		collect(body, 0)
 		var q []string
 		for _, n := range effs {
 			q = append(q, "\""+strings.ReplaceAll(n, "\"", "'")+"\"%string")
@@ -1241,15 +1434,16 @@ func main() {
 			if fd == nil {
 				fail("function %s not found in %s", t.Func, t.File)
 			}
-			c := &tctx{fset: fset, t: t, env: map[string]string{}, consts: cs, funcs: funcs, ftypes: ftypes, used: map[string]bool{}}
+			var aux []string
+			c := &tctx{fset: fset, t: t, env: map[string]string{}, consts: cs, funcs: funcs, ftypes: ftypes, used: map[string]bool{}, files: files, aux: &aux}
 			var params []string
 			var value, typ, panics string
 			if t.Kind == "func" {
 				var sig []string
 				for _, fl := range fd.Type.Params.List {
-					ty := norm(fset, fl.Type)
+					ty := goType(norm(fset, fl.Type))
 					for _, nm := range fl.Names {
-						if !isInt(ty) && ty != "bool" {
+						if !isInt(ty) && ty != "bool" && ty != "Int" && ty != "Dec" {
 							fail("parameter %s of type %s", nm.Name, ty)
 						}
 						c.env[nm.Name] = ty
@@ -1297,11 +1491,11 @@ func main() {
 				var ty string
 				value, ty, panics = c.fragment(fd.Body)
 				typ = coqType(ty)
-				for _, a := range t.Atoms {
-					if !c.used[a.Coq] {
-						fail("atom %q no longer occurs in the fragment", a.Go)
-					}
-				}
+				// an atom the fragment no longer reads stays a parameter: if its disappearance changes the meaning, the tie
+				// theorem fails (a broken obligation, not a lost one)
+			}
+			for _, a := range aux {
+				sb.WriteString(a)
 			}
 			fmt.Fprintf(&sb, "(* %s : %s, %s %s *)\n", t.File, t.Func, t.Kind, t.Pick)
 			fmt.Fprintf(&sb, "Definition %s %s : %s :=\n  %s.\n", t.Name, strings.Join(params, " "), typ, value)
